@@ -56,6 +56,11 @@ CHECKS = [
          design_ref="§3 C06",
          note='Trusted: TLC, the projection (real store -> abstract state), the in-memory object store (checked against ObjectStore.tla), harness-chosen KSUIDs. Bounds: 3 prefix-related repos, 7 paths incl. generated decoys, 4 contents, <= 5-7 bundles, histories of 12-14 steps (random walks); 1000/1001-file bundles in a separate small run. Crash = fail-stop of one client with atomic single-object writes',
          technique='TLA+ model checking (TLC) of Meta.tla + replay of TLC-generated API behaviours on pkg/core with state projection compare'),
+    dict(id="C07",
+         text="Listing.tla (pages -> basename filter -> mergeKeys) equals the reference listing for every content and page size within bounds (TLC, exhaustive); the same contents are built with real split runs / crashed runs / cancels and listed with 6 page sizes x 2 concurrency levels; TLC-generated histories of repos, bundles (with leftovers) and labels are listed after every step with page sizes 1-3 in strict order through slice and Apply variants; 1030 bundles/labels and a diamond with 350 splits cross the default page size",
+         design_ref="§3 C07",
+         note="Trusted: TLC, the projection, the in-memory object store (ListOp checked against ObjectStore.tla). Order: bundles by id, labels by name, repos name-or-key order; diamonds/splits completeness and exactness only",
+         technique="TLA+ model checking (TLC) of the scan algorithm + replay of TLC-enumerated contents and TLC-generated histories on the listing API"),
     dict(id="C08",
          text='TLC-generated label histories (set, overwrite, delete, bundle delete, repo delete/rename) over prefix-related repositories replayed on pkg/core; get/list of every label after every step compared with Meta!GetLabelOp/ListLabelsOp; full projection shows that a label set changes nothing else',
          design_ref="§3 C08",
